@@ -32,16 +32,16 @@ Section TreeP.
   Lemma nearest_lt tree q : tree <> [] -> (nearest tree q < length tree)%nat.
   Proof. destruct tree as [|[s p] t]; [congruence|]. intros _. cbn [RrtModel.nearest length]. pose proof (nearest_from_lt t q 1 0 (dist s q) ltac:(lia)). lia. Qed.
 
-  Variable nstarts : nat.
+  Variable nstarts : nat.                    (* the size of the tree when the current call of solve() entered its loop *)
   Variable starts : list St.
-  (* roots are the start states (the first nstarts nodes); every other node hangs off an earlier node by a vouched motion *)
+  (* roots are start states; every other node hangs off an earlier node by a vouched motion *)
   Definition TInv (tree : list node) : Prop :=
-    (nstarts <= length tree)%nat /\
-    (forall i s, nth_error tree i = Some (s, None) -> (i < nstarts)%nat /\ In s starts) /\
-    (forall i s p e, nth_error tree i = Some (s, Some (p, e)) -> (nstarts <= i)%nat /\ (p < i)%nat /\ exists ps pp, nth_error tree p = Some (ps, pp) /\ EdgeOk ps e s).
+    (forall i s, nth_error tree i = Some (s, None) -> In s starts) /\
+    (forall i s p e, nth_error tree i = Some (s, Some (p, e)) -> (p < i)%nat /\ exists ps pp, nth_error tree p = Some (ps, pp) /\ EdgeOk ps e s).
   Definition state_at (tree : list node) (i : nat) : St := fst (nth i tree (dflt, None)).
   Definition AInv (s : rst St D E) : Prop :=
     let tree := r_tree s in
+    (nstarts <= length tree)%nat /\
     match r_approx s with
     | None => length tree = nstarts /\ r_sol s = None
     | Some (i, dd) => (nstarts <= i < length tree)%nat /\ dd = gdist (state_at tree i) /\
@@ -67,26 +67,25 @@ Section TreeP.
     destruct (extend ns i) as [[ds e]|] eqn:Em; [|auto].
     assert (Hni : (ni < length tree)%nat) by (apply nearest_lt; exact Hne).
     assert (T' : TInv (tree ++ [(ds, Some (ni, e))])).
-    { destruct T as (T0 & T1 & T2). split; [rewrite app_length; cbn; lia|]. split.
+    { destruct T as (T1 & T2). split.
       - intros k x Hk. rewrite nth_error_snoc in Hk. destruct (k <? length tree)%nat; [apply (T1 k x Hk)|]. destruct (k =? length tree)%nat; discriminate.
       - intros k x p e0 Hk. rewrite nth_error_snoc in Hk. destruct (Nat.ltb_spec k (length tree)) as [L|L].
-        + destruct (T2 k x p e0 Hk) as (A1 & A2 & ps & pp & A3 & A4). split; [exact A1|]. split; [exact A2|]. exists ps, pp. split; [rewrite nth_error_app1 by lia; exact A3|exact A4].
-        + destruct (Nat.eqb_spec k (length tree)) as [->|N]; [|discriminate]. injection Hk as <- <- <-. split; [exact T0|]. split; [exact Hni|].
+        + destruct (T2 k x p e0 Hk) as (A2 & ps & pp & A3 & A4). split; [exact A2|]. exists ps, pp. split; [rewrite nth_error_app1 by lia; exact A3|exact A4].
+        + destruct (Nat.eqb_spec k (length tree)) as [->|N]; [|discriminate]. injection Hk as <- <- <-. split; [exact Hni|].
           destruct (nth_error tree ni) as [[ps pp]|] eqn:En; [|apply nth_error_None in En; lia]. exists ps, pp. split; [rewrite nth_error_app1 by lia; exact En|].
           apply (extend_ok ps i ds e). unfold ns in Em. erewrite nth_error_nth in Em by exact En. exact Em. }
     assert (Hne' : tree ++ [(ds, Some (ni, e))] <> []) by (destruct tree; discriminate).
-    assert (T0 : (nstarts <= length tree)%nat) by apply T.
-    unfold AInv in A. fold tree in A. rewrite Hsol in A.
+    unfold AInv in A. fold tree in A. rewrite Hsol in A. destruct A as (T0 & A).
     destruct (sat ds) eqn:Es.
-    - split; [exact T'|]. split; [|exact Hne']. unfold AInv. cbn [RrtModel.r_tree RrtModel.r_approx RrtModel.r_sol]. rewrite app_length. cbn [length]. rewrite state_at_snoc_new. split; [lia|]. split; [reflexivity|]. split; [reflexivity|exact Es].
+    - split; [exact T'|]. split; [|exact Hne']. unfold AInv. cbn [RrtModel.r_tree RrtModel.r_approx RrtModel.r_sol]. rewrite app_length. cbn [length]. split; [lia|]. rewrite state_at_snoc_new. split; [lia|]. split; [reflexivity|]. split; [reflexivity|exact Es].
     - destruct (r_approx s) as [[bi bd]|] eqn:Ea.
       + destruct A as (A1 & A2 & A3 & A4). destruct (dlt (gdist ds) bd) eqn:El.
-        * split; [exact T'|]. split; [|exact Hne']. unfold AInv. cbn [RrtModel.r_tree RrtModel.r_approx RrtModel.r_sol]. rewrite app_length. cbn [length]. rewrite state_at_snoc_new. split; [lia|]. split; [reflexivity|]. split; [exact Es|].
+        * split; [exact T'|]. split; [|exact Hne']. unfold AInv. cbn [RrtModel.r_tree RrtModel.r_approx RrtModel.r_sol]. rewrite app_length. cbn [length]. split; [lia|]. rewrite state_at_snoc_new. split; [lia|]. split; [reflexivity|]. split; [exact Es|].
           intros j Hj. destruct (Nat.eq_dec j (length tree)) as [->|N]; [rewrite state_at_snoc_new; apply dlt_irrefl|]. rewrite state_at_snoc_old by lia.
           destruct (dlt (gdist (state_at tree j)) (gdist ds)) eqn:Ej; [|reflexivity]. pose proof (A4 j ltac:(lia)) as C. rewrite (dlt_trans _ _ _ Ej El) in C. discriminate.
-        * split; [exact T'|]. split; [|exact Hne']. unfold AInv. cbn [RrtModel.r_tree RrtModel.r_approx RrtModel.r_sol]. rewrite app_length. cbn [length]. rewrite state_at_snoc_old by lia. split; [lia|]. split; [exact A2|]. split; [exact A3|].
+        * split; [exact T'|]. split; [|exact Hne']. unfold AInv. cbn [RrtModel.r_tree RrtModel.r_approx RrtModel.r_sol]. rewrite app_length. cbn [length]. split; [lia|]. rewrite state_at_snoc_old by lia. split; [lia|]. split; [exact A2|]. split; [exact A3|].
           intros j Hj. destruct (Nat.eq_dec j (length tree)) as [->|N]; [rewrite state_at_snoc_new; exact El|]. rewrite state_at_snoc_old by lia. apply A4. lia.
-      + destruct A as (A1 & _). split; [exact T'|]. split; [|exact Hne']. unfold AInv. cbn [RrtModel.r_tree RrtModel.r_approx RrtModel.r_sol]. rewrite app_length. cbn [length]. rewrite state_at_snoc_new. split; [lia|]. split; [reflexivity|]. split; [exact Es|].
+      + destruct A as (A1 & _). split; [exact T'|]. split; [|exact Hne']. unfold AInv. cbn [RrtModel.r_tree RrtModel.r_approx RrtModel.r_sol]. rewrite app_length. cbn [length]. split; [lia|]. rewrite state_at_snoc_new. split; [lia|]. split; [reflexivity|]. split; [exact Es|].
         intros j Hj. assert (j = length tree) by lia. subst j. rewrite state_at_snoc_new. apply dlt_irrefl.
   Qed.
   Lemma step_extends s i : exists ext, r_tree (tree_step s i) = r_tree s ++ ext.
@@ -121,51 +120,105 @@ Section TreeP.
     let c := chain St E fuel tree i in
     c <> [] /\ snd (last c (None, dflt)) = s /\ (exists s0, hd (None, dflt) c = (None, s0) /\ In s0 starts) /\ pathOk c.
   Proof.
-    intros (T0 & T1 & T2). induction fuel as [|f IH]; intros i s p Hi En; [lia|]. cbn [chain]. rewrite En. destruct p as [[pi e]|].
-    - destruct (T2 i s pi e En) as (_ & Hp & ps & pp & Ep & Em). destruct (IH pi ps pp ltac:(lia) Ep) as (C1 & C2 & C3 & C4). cbn zeta.
+    intros (T1 & T2). induction fuel as [|f IH]; intros i s p Hi En; [lia|]. cbn [chain]. rewrite En. destruct p as [[pi e]|].
+    - destruct (T2 i s pi e En) as (Hp & ps & pp & Ep & Em). destruct (IH pi ps pp ltac:(lia) Ep) as (C1 & C2 & C3 & C4). cbn zeta.
       split; [destruct (chain St E f tree pi); discriminate|]. split; [rewrite last_last; reflexivity|]. split; [destruct (chain St E f tree pi); [congruence|exact C3]|].
       apply pathOk_snoc; [exact C1|exact C4|rewrite C2; exact Em].
-    - destruct (T1 i s En) as (_ & Hin). cbn. split; [discriminate|]. split; [reflexivity|]. split; [exists s; auto|exact Logic.I].
+    - pose proof (T1 i s En) as Hin. cbn. split; [discriminate|]. split; [reflexivity|]. split; [exists s; auto|exact Logic.I].
   Qed.
 End TreeP.
 
-(* what solve() reports, for the shared loop *)
+(* what one call of solve() reports, on a planner that already holds a tree satisfying the invariant (the shared loop) *)
+Definition report_ok (St D E : Type) (sat : St -> bool) (gdist : St -> D) (dlt : D -> D -> bool) (dflt : St) (EdgeOk : St -> E -> St -> Prop)
+    (starts : list St) (base : nat) (tree : list (node St E)) (rep : option (list (option E * St) * bool * D)) : Prop :=
+  match rep with
+  | Some (path, approx, dd) =>
+      path <> [] /\ (exists s0, hd (None, dflt) path = (None, s0) /\ In s0 starts) /\ pathOk St E EdgeOk path /\ dd = gdist (snd (last path (None, dflt))) /\
+      (exists i, (base <= i < length tree)%nat /\ snd (last path (None, dflt)) = state_at St E dflt tree i) /\
+      (if approx then sat (snd (last path (None, dflt))) = false /\ forall j, (base <= j < length tree)%nat -> dlt (gdist (state_at St E dflt tree j)) dd = false
+       else sat (snd (last path (None, dflt))) = true)
+  | None => length tree = base
+  end.
+Theorem tree_call_spec : forall (St D I E : Type) dist (dlt : D -> D -> bool) (target : I -> St) extend sat gdist (dflt : St) (EdgeOk : St -> E -> St -> Prop),
+  (forall a b c, dlt a b = true -> dlt b c = true -> dlt a c = true) -> (forall a, dlt a a = false) ->
+  (forall n i s e, extend n i = Some (s, e) -> EdgeOk n e s) ->
+  forall starts tree0 new_starts ins, TInv St E EdgeOk starts tree0 -> (forall x, In x new_starts -> In x starts) ->
+  let init := tree0 ++ map (fun x => (x, None)) new_starts in
+  let tree := fst (tree_call St D I E dist dlt target extend sat gdist dflt tree0 new_starts ins) in
+  TInv St E EdgeOk starts tree /\ (exists ext, tree = init ++ ext) /\
+  (init <> [] -> report_ok St D E sat gdist dlt dflt EdgeOk starts (length init) tree (snd (tree_call St D I E dist dlt target extend sat gdist dflt tree0 new_starts ins))).
+Proof.
+  intros St D I E dist dlt target extend sat gdist dflt EdgeOk Htr Hir Hex starts tree0 new_starts ins HT Hn. cbn zeta. unfold tree_call.
+  set (init := tree0 ++ map (fun x => (x, None)) new_starts).
+  assert (T0 : TInv St E EdgeOk starts init).
+  { destruct HT as (T1 & T2). split.
+    - intros i s Hi. unfold init in Hi. destruct (Nat.ltb_spec i (length tree0)) as [L|L]; [rewrite nth_error_app1 in Hi by exact L; apply (T1 i s Hi)|].
+      rewrite nth_error_app2, nth_error_map in Hi by exact L. destruct (nth_error new_starts (i - length tree0)) eqn:E0; [|discriminate]. cbn in Hi. injection Hi as <-. apply Hn. eapply nth_error_In; exact E0.
+    - intros i s p e Hi. unfold init in Hi. destruct (Nat.ltb_spec i (length tree0)) as [L|L].
+      + rewrite nth_error_app1 in Hi by exact L. destruct (T2 i s p e Hi) as (A2 & ps & pp & A3 & A4). split; [exact A2|]. exists ps, pp. split; [unfold init; rewrite nth_error_app1 by lia; exact A3|exact A4].
+      + rewrite nth_error_app2, nth_error_map in Hi by exact L. destruct (nth_error new_starts (i - length tree0)); discriminate. }
+  clearbody init. destruct init as [|n0 rest]; [cbn [fst snd]; split; [exact T0|split; [exists []; reflexivity|congruence]]|].
+  set (init := n0 :: rest) in *.
+  set (s0 := mkR St D E init None None).
+  assert (A0 : AInv St D E dlt sat gdist dflt (length init) s0) by (unfold AInv; cbn [r_tree r_approx r_sol s0]; auto).
+  destruct (loop_inv St D I E dist dlt target extend sat gdist dflt Htr Hir EdgeOk Hex (length init) starts ins s0) as (T & A & (ext & E0)); [cbn; discriminate|exact T0|exact A0|].
+  set (fin := RrtModel.tree_loop St D I E dist dlt target extend sat gdist dflt s0 ins) in *. cbn [fst snd]. split; [exact T|]. split; [exists ext; exact E0|]. intros _.
+  unfold AInv in A. destruct A as (AB & A). unfold report_ok. destruct (r_approx St D E fin) as [[bi bd]|] eqn:Ea.
+  - destruct A as (A1 & A2 & A3).
+    assert (CH : forall i, (i < length (r_tree St D E fin))%nat -> let c := chain St E (S (length (r_tree St D E fin))) (r_tree St D E fin) i in
+              c <> [] /\ snd (last c (None, dflt)) = state_at St E dflt (r_tree St D E fin) i /\ (exists s1, hd (None, dflt) c = (None, s1) /\ In s1 starts) /\ pathOk St E EdgeOk c).
+    { intros i Hi. destruct (nth_error (r_tree St D E fin) i) as [[s p]|] eqn:En; [|apply nth_error_None in En; lia].
+      destruct (chain_spec St E dflt EdgeOk starts _ T (S (length (r_tree St D E fin))) i s p ltac:(lia) En) as (C1 & C2 & C3 & C4).
+      split; [exact C1|]. split; [rewrite C2; unfold state_at; erewrite nth_error_nth by exact En; reflexivity|]. split; assumption. }
+    destruct (r_sol St D E fin) as [k|] eqn:Ek.
+    + destruct A3 as (-> & A4). destruct (CH bi ltac:(lia)) as (C1 & C2 & C3 & C4). split; [exact C1|]. split; [exact C3|]. split; [exact C4|]. split; [rewrite C2; exact A2|]. split; [exists bi; split; [exact A1|exact C2]|]. rewrite C2. exact A4.
+    + destruct A3 as (A4 & A5). destruct (CH bi ltac:(lia)) as (C1 & C2 & C3 & C4). split; [exact C1|]. split; [exact C3|]. split; [exact C4|]. split; [rewrite C2; exact A2|]. split; [exists bi; split; [exact A1|exact C2]|]. rewrite C2. split; [exact A4|exact A5].
+  - destruct A as (A1 & A2). rewrite A2. exact A1.
+Qed.
+
+Lemma TInv_nil (St E : Type) (EdgeOk : St -> E -> St -> Prop) starts : TInv St E EdgeOk starts [].
+Proof. split; [intros i s H|intros i s p e H]; destruct i; discriminate. Qed.
+(* the first call *)
 Theorem tree_solve_spec : forall (St D I E : Type) dist (dlt : D -> D -> bool) (target : I -> St) extend sat gdist (dflt : St) (EdgeOk : St -> E -> St -> Prop),
   (forall a b c, dlt a b = true -> dlt b c = true -> dlt a c = true) -> (forall a, dlt a a = false) ->
   (forall n i s e, extend n i = Some (s, e) -> EdgeOk n e s) ->
   forall starts ins, starts <> [] ->
   let tree := fst (tree_solve St D I E dist dlt target extend sat gdist dflt starts ins) in
-  TInv St E EdgeOk (length starts) starts tree /\
-  match snd (tree_solve St D I E dist dlt target extend sat gdist dflt starts ins) with
-  | Some (path, approx, dd) =>
-      path <> [] /\ (exists s0, hd (None, dflt) path = (None, s0) /\ In s0 starts) /\ pathOk St E EdgeOk path /\ dd = gdist (snd (last path (None, dflt))) /\
-      (exists i, (length starts <= i < length tree)%nat /\ snd (last path (None, dflt)) = state_at St E dflt tree i) /\
-      (if approx then sat (snd (last path (None, dflt))) = false /\ forall j, (length starts <= j < length tree)%nat -> dlt (gdist (state_at St E dflt tree j)) dd = false
-       else sat (snd (last path (None, dflt))) = true)
-  | None => tree = map (fun x => (x, None)) starts
-  end.
+  TInv St E EdgeOk starts tree /\ (exists ext, tree = map (fun x => (x, None)) starts ++ ext) /\
+  report_ok St D E sat gdist dlt dflt EdgeOk starts (length starts) tree (snd (tree_solve St D I E dist dlt target extend sat gdist dflt starts ins)).
 Proof.
-  intros St D I E dist dlt target extend sat gdist dflt EdgeOk Htr Hir Hex starts ins Hs. unfold tree_solve. destruct starts as [|s0 st]; [congruence|]. set (starts := s0 :: st) in *.
-  set (init := mkR St D E (map (fun x => (x, None)) starts) None None).
-  assert (T0 : TInv St E EdgeOk (length starts) starts (r_tree St D E init)).
-  { cbn [r_tree init]. split; [rewrite map_length; lia|]. split.
-    - intros i s Hi. rewrite nth_error_map in Hi. destruct (nth_error starts i) eqn:E0; [|discriminate]. cbn in Hi. injection Hi as <-. split; [apply nth_error_Some; congruence|eapply nth_error_In; exact E0].
-    - intros i s p e Hi. rewrite nth_error_map in Hi. destruct (nth_error starts i); discriminate. }
-  assert (A0 : AInv St D E dlt sat gdist dflt (length starts) init) by (unfold AInv; cbn [r_tree r_approx r_sol init]; rewrite map_length; auto).
-  assert (N0 : r_tree St D E init <> []) by (cbn; discriminate).
-  destruct (loop_inv St D I E dist dlt target extend sat gdist dflt Htr Hir EdgeOk Hex (length starts) starts ins init N0 T0 A0) as (T & A & (ext & E0)).
-  set (fin := RrtModel.tree_loop St D I E dist dlt target extend sat gdist dflt init ins) in *. cbn [fst snd]. split; [exact T|].
-  unfold AInv in A. destruct (r_approx St D E fin) as [[bi bd]|] eqn:Ea.
-  - destruct A as (A1 & A2 & A3).
-    assert (CH : forall i, (length starts <= i < length (r_tree St D E fin))%nat -> let c := chain St E (S (length (r_tree St D E fin))) (r_tree St D E fin) i in
-              c <> [] /\ snd (last c (None, dflt)) = state_at St E dflt (r_tree St D E fin) i /\ (exists s1, hd (None, dflt) c = (None, s1) /\ In s1 starts) /\ pathOk St E EdgeOk c).
-    { intros i Hi. destruct (nth_error (r_tree St D E fin) i) as [[s p]|] eqn:En; [|apply nth_error_None in En; lia].
-      destruct (chain_spec St E dflt EdgeOk (length starts) starts _ T (S (length (r_tree St D E fin))) i s p ltac:(lia) En) as (C1 & C2 & C3 & C4).
-      split; [exact C1|]. split; [rewrite C2; unfold state_at; erewrite nth_error_nth by exact En; reflexivity|]. split; assumption. }
-    destruct (r_sol St D E fin) as [k|] eqn:Ek.
-    + destruct A3 as (-> & A4). destruct (CH bi A1) as (C1 & C2 & C3 & C4). split; [exact C1|]. split; [exact C3|]. split; [exact C4|]. split; [rewrite C2; exact A2|]. split; [exists bi; split; [exact A1|exact C2]|]. rewrite C2. exact A4.
-    + destruct A3 as (A4 & A5). destruct (CH bi A1) as (C1 & C2 & C3 & C4). split; [exact C1|]. split; [exact C3|]. split; [exact C4|]. split; [rewrite C2; exact A2|]. split; [exists bi; split; [exact A1|exact C2]|]. rewrite C2. split; [exact A4|exact A5].
-  - destruct A as (A1 & A2). rewrite A2. rewrite E0 in A1 |- *. cbn [r_tree init] in *. rewrite app_length, map_length in A1. assert (ext = []) by (destruct ext; [reflexivity|cbn in A1; lia]). subst ext. rewrite app_nil_r. reflexivity.
+  intros St D I E dist dlt target extend sat gdist dflt EdgeOk Htr Hir Hex starts ins Hs. unfold tree_solve.
+  destruct (tree_call_spec St D I E dist dlt target extend sat gdist dflt EdgeOk Htr Hir Hex starts [] starts ins (TInv_nil St E EdgeOk starts) (fun x H => H)) as (A & B & C).
+  cbn [app] in *. split; [exact A|]. split; [exact B|]. rewrite <- (map_length (fun x : St => (x, @None (nat * E))) starts). apply C. destruct starts; [congruence|discriminate].
+Qed.
+(* any number of solve() calls without clear(): the tree keeps its invariant and only grows, and every call's report is real *)
+Theorem tree_calls_spec : forall (St D I E : Type) dist (dlt : D -> D -> bool) (target : I -> St) extend sat gdist (dflt : St) (EdgeOk : St -> E -> St -> Prop),
+  (forall a b c, dlt a b = true -> dlt b c = true -> dlt a c = true) -> (forall a, dlt a a = false) ->
+  (forall n i s e, extend n i = Some (s, e) -> EdgeOk n e s) ->
+  forall starts calls tree0 new_starts, TInv St E EdgeOk starts tree0 -> (forall x, In x new_starts -> In x starts) -> tree0 ++ map (fun x => (x, None)) new_starts <> [] ->
+  let res := tree_calls St D I E dist dlt target extend sat gdist dflt tree0 new_starts calls in
+  TInv St E EdgeOk starts (fst res) /\
+  Forall (fun rep => exists base tree, report_ok St D E sat gdist dlt dflt EdgeOk starts base tree rep /\ TInv St E EdgeOk starts tree /\ exists ext, fst res = tree ++ ext) (snd res).
+Proof.
+  intros St D I E dist dlt target extend sat gdist dflt EdgeOk Htr Hir Hex starts calls.
+  induction calls as [|ins rest IH]; intros tree0 new_starts HT Hn Hne; cbn [tree_calls].
+  - cbn [fst snd]. split; [|constructor].
+    destruct (tree_call_spec St D I E dist dlt target extend sat gdist dflt EdgeOk Htr Hir Hex starts tree0 new_starts [] HT Hn) as (A & _). cbn zeta in A.
+    unfold tree_call in A. destruct (tree0 ++ map (fun x => (x, None)) new_starts) as [|n0 r0] eqn:Ei; [congruence|]. cbn [tree_loop r_sol fst] in A. exact A.
+  - destruct (tree_call_spec St D I E dist dlt target extend sat gdist dflt EdgeOk Htr Hir Hex starts tree0 new_starts ins HT Hn) as (A & (ext & B) & C). cbn zeta in A, B, C.
+    destruct (tree_call St D I E dist dlt target extend sat gdist dflt tree0 new_starts ins) as [t1 rep] eqn:E1. cbn [fst snd] in A, B, C.
+    assert (N1 : t1 ++ map (fun x => (x, @None (nat * E))) [] <> []) by (rewrite B; cbn [map]; rewrite app_nil_r; destruct (tree0 ++ map (fun x => (x, None)) new_starts); [congruence|discriminate]).
+    destruct (IH t1 [] A (fun x H => match H with end) N1) as (X & Y). cbn zeta in X, Y.
+    destruct (tree_calls St D I E dist dlt target extend sat gdist dflt t1 [] rest) as [t2 reps] eqn:E2. cbn [fst snd] in *. split; [exact X|]. constructor; [|exact Y].
+    exists (length (tree0 ++ map (fun x => (x, None)) new_starts)), t1. split; [apply C; exact Hne|]. split; [exact A|].
+    (* the final tree extends t1 *)
+    clear - E2 Htr Hir Hex A N1. revert t1 t2 reps E2 A N1. induction rest as [|i2 r2 IH2]; intros t1 t2 reps E2 A N1; cbn [tree_calls] in E2.
+    + injection E2 as <- _. cbn [map]. exists []. reflexivity.
+    + destruct (tree_call_spec St D I E dist dlt target extend sat gdist dflt EdgeOk Htr Hir Hex starts t1 [] i2 A (fun x H => match H with end)) as (A' & (e1 & B') & _). cbn zeta in A', B'.
+      destruct (tree_call St D I E dist dlt target extend sat gdist dflt t1 [] i2) as [t1' rep'] eqn:E1'. cbn [fst] in A', B'.
+      destruct (tree_calls St D I E dist dlt target extend sat gdist dflt t1' [] r2) as [t2' reps'] eqn:E2'. injection E2 as <- _.
+      assert (N1' : t1' ++ map (fun x => (x, @None (nat * E))) [] <> []) by (rewrite B'; cbn [map] in *; rewrite !app_nil_r in *; destruct t1; [congruence|discriminate]).
+      destruct (IH2 t1' t2' reps' E2' A' N1') as (e2 & F). exists (e1 ++ e2). rewrite F, B'. cbn [map]. rewrite app_nil_r, app_assoc. reflexivity.
 Qed.
 
 (* ---- geometric::RRT ---- *)
@@ -193,8 +246,8 @@ Section RrtG.
 
   Theorem rrt_solve_spec : forall starts hits samples, starts <> [] ->
     let tree := fst (rrt_solve St D dist dlt steer mv sat gdist goal_state dflt starts hits samples) in
-    (forall i s, nth_error tree i = Some (s, None) -> (i < length starts)%nat /\ In s starts) /\
-    (forall i s p, nth_error tree i = Some (s, Some p) -> (length starts <= i)%nat /\ (p < i)%nat /\ exists ps pp, nth_error tree p = Some (ps, pp) /\ mv ps s = true) /\
+    (forall i s, nth_error tree i = Some (s, None) -> In s starts) /\
+    (forall i s p, nth_error tree i = Some (s, Some p) -> (p < i)%nat /\ exists ps pp, nth_error tree p = Some (ps, pp) /\ mv ps s = true) /\
     match snd (rrt_solve St D dist dlt steer mv sat gdist goal_state dflt starts hits samples) with
     | Some (path, approx, dd) =>
         path <> [] /\ In (hd dflt path) starts /\ consecutive (fun a b => mv a b = true) path /\ dd = gdist (last path dflt) /\
@@ -207,20 +260,20 @@ Section RrtG.
     intros starts hits samples Hs. unfold rrt_solve.
     pose proof (tree_solve_spec St D St unit dist dlt (fun r => r) (rrt_extend St steer mv) sat gdist dflt gEdge dlt_trans dlt_irrefl rrt_extend_ok starts (targets St goal_state dflt hits samples) Hs) as TS.
     cbn zeta in TS. destruct (tree_solve St D St unit dist dlt (fun r => r) (rrt_extend St steer mv) sat gdist dflt starts (targets St goal_state dflt hits samples)) as [tree rep]. cbn [fst snd] in *.
-    destruct TS as ((T0 & T1 & T2) & R).
+    destruct TS as ((T1 & T2) & (ext & EX) & R).
     assert (NM : forall i, nth_error (map (fun n : node St unit => (fst n, option_map fst (snd n))) tree) i = option_map (fun n => (fst n, option_map fst (snd n))) (nth_error tree i)) by (intros i; apply nth_error_map).
     assert (SA : forall j, fst (nth j (map (fun n : node St unit => (fst n, option_map fst (snd n))) tree) (dflt, None)) = state_at St unit dflt tree j).
     { intros j. unfold state_at. change (dflt, @None nat) with ((fun n : node St unit => (fst n, option_map fst (snd n))) (dflt, None)). rewrite map_nth. reflexivity. }
     split; [|split].
     - intros i s Hi. rewrite NM in Hi. destruct (nth_error tree i) as [[x [[p e]|]]|] eqn:En; cbn in Hi; try discriminate. injection Hi as <-. apply (T1 i x En).
     - intros i s p Hi. rewrite NM in Hi. destruct (nth_error tree i) as [[x [[p0 e]|]]|] eqn:En; cbn in Hi; try discriminate. injection Hi as <- <-.
-      destruct (T2 i x p0 e En) as (A1 & A2 & ps & pp & A3 & A4). split; [exact A1|]. split; [exact A2|]. exists ps, (option_map fst pp). split; [rewrite NM, A3; reflexivity|exact A4].
-    - destruct rep as [[[path approx] dd]|].
+      destruct (T2 i x p0 e En) as (A2 & ps & pp & A3 & A4). split; [exact A2|]. exists ps, (option_map fst pp). split; [rewrite NM, A3; reflexivity|exact A4].
+    - unfold report_ok in R. destruct rep as [[[path approx] dd]|].
       + destruct R as (R1 & (s0 & R2 & R2') & R3 & R4 & (i & R5 & R5') & R6). rewrite map_length.
         split; [destruct path; [congruence|discriminate]|]. split; [destruct path as [|a t]; [congruence|]; cbn in R2 |- *; rewrite R2; exact R2'|].
         split; [apply pathOk_consecutive; exact R3|]. rewrite (last_map_snd path R1). split; [exact R4|]. split; [exists i; split; [exact R5|rewrite SA; exact R5']|].
         destruct approx; [destruct R6 as (R6 & R7); split; [exact R6|intros j Hj; rewrite SA; apply R7; exact Hj]|exact R6].
-      + rewrite R, map_map. reflexivity.
+      + rewrite EX in R |- *. rewrite app_length, map_length in R. assert (ext = []) by (destruct ext; [reflexivity|cbn in R; lia]). subst ext. rewrite app_nil_r, map_map. reflexivity.
   Qed.
 End RrtG.
 
@@ -243,21 +296,14 @@ Section RrtC.
     destruct (best_control St C stepf valid (fun x => dist x (fst i)) n (fst (snd i)) (snd (snd i))) as [[c k] st]. destruct BS as (_ & B2 & B3 & _).
     destruct (Nat.leb_spec minDur k) as [L|L]; [|discriminate]. intros H. injection H as <- <-. unfold cEdge. cbn [fst snd]. auto.
   Qed.
+  Lemma zltb_trans : forall a b c : Z, (a <? b)%Z = true -> (b <? c)%Z = true -> (a <? c)%Z = true.
+  Proof. intros a b c H1 H2. apply Z.ltb_lt in H1, H2. apply Z.ltb_lt. lia. Qed.
   Theorem crrt_solve_spec : forall starts ins, starts <> [] ->
     let tree := fst (crrt_solve St C stepf valid dist sat gdist dflt minDur starts ins) in
-    TInv St (C * nat) cEdge (length starts) starts tree /\
-    match snd (crrt_solve St C stepf valid dist sat gdist dflt minDur starts ins) with
-    | Some (path, approx, dd) =>
-        path <> [] /\ (exists s0, hd (None, dflt) path = (None, s0) /\ In s0 starts) /\ pathOk St (C * nat) cEdge path /\ dd = gdist (snd (last path (None, dflt))) /\
-        (exists i, (length starts <= i < length tree)%nat /\ snd (last path (None, dflt)) = state_at St (C * nat) dflt tree i) /\
-        (if approx then sat (snd (last path (None, dflt))) = false /\ forall j, (length starts <= j < length tree)%nat -> (gdist (state_at St (C * nat) dflt tree j) <? dd)%Z = false
-         else sat (snd (last path (None, dflt))) = true)
-    | None => tree = map (fun x => (x, None)) starts
-    end.
+    TInv St (C * nat) cEdge starts tree /\ (exists ext, tree = map (fun x => (x, None)) starts ++ ext) /\
+    report_ok St Z (C * nat) sat gdist Z.ltb dflt cEdge starts (length starts) tree (snd (crrt_solve St C stepf valid dist sat gdist dflt minDur starts ins)).
   Proof.
     intros starts ins Hs. unfold crrt_solve.
-    apply (tree_solve_spec St Z (citer St C) (C * nat) dist Z.ltb fst (crrt_extend St C stepf valid dist minDur) sat gdist dflt cEdge); [| |apply crrt_extend_ok|exact Hs].
-    - intros a b c H1 H2. apply Z.ltb_lt in H1, H2. apply Z.ltb_lt. lia.
-    - intros a. apply Z.ltb_irrefl.
+    apply (tree_solve_spec St Z (citer St C) (C * nat) dist Z.ltb fst (crrt_extend St C stepf valid dist minDur) sat gdist dflt cEdge zltb_trans Z.ltb_irrefl crrt_extend_ok starts ins Hs).
   Qed.
 End RrtC.
